@@ -62,6 +62,13 @@ var c11Entries = []struct {
 }{
 	{"Trace", func(s *site) { s.mark(); log.Trace(s.ctx, s.tag, lazyMsg(s)) }},
 	{"Tracef", func(s *site) { s.mark(); log.Tracef(s.ctx, s.tag, "%s", s.id) }},
+	{"Tracef/plain", func(s *site) { s.mark(); log.Tracef(s.ctx, s.tag, s.id) }}, // a message without verbs and without arguments
+	{"Debugf/plain", func(s *site) { s.mark(); log.Debugf(s.ctx, s.tag, s.id) }}, // a message without verbs and without arguments
+	{"Infof/plain", func(s *site) { s.mark(); log.Infof(s.ctx, s.tag, s.id) }},   // a message without verbs and without arguments
+	{"Warnf/plain", func(s *site) { s.mark(); log.Warnf(s.ctx, s.tag, s.id) }},   // a message without verbs and without arguments
+	{"Errorf/plain", func(s *site) { s.mark(); log.Errorf(s.ctx, s.tag, s.id) }}, // a message without verbs and without arguments
+	{"Panicf/plain", func(s *site) { s.mark(); log.Panicf(s.ctx, s.tag, s.id) }}, // a message without verbs and without arguments
+	{"Fatalf/plain", func(s *site) { s.mark(); log.Fatalf(s.ctx, s.tag, s.id) }}, // a message without verbs and without arguments
 	{"Debug", func(s *site) { s.mark(); log.Debug(s.ctx, s.tag, lazyMsg(s)) }},
 	{"Debugf", func(s *site) { s.mark(); log.Debugf(s.ctx, s.tag, "%s", s.id) }},
 	{"Info", func(s *site) { s.mark(); log.Info(s.ctx, s.tag, log.Msg(s.id)) }},
